@@ -2,7 +2,7 @@
   Ports of the instantiated definitions through one child block and through all of them: lower bound
   (every connected pin's port bit exists afterwards) and upper bound (`UBd`).
 -/
-import Spydr.Eblif.DefsUB
+import Spydr.Eblif.DefsLatch
 
 namespace Spydr.Eblif.Any
 
@@ -11,30 +11,35 @@ open Spydr.Eblif
 theorem kid_ports (o : Opts) (n : BNet) (t : String) (hw : WellNamed n)
     (hc : ∀ c ∈ n.cables, plainName c.1.2 ∧ c.1.2 ≠ "unconn" ∧ c.1.2.toList ≠ []) (k : Inst × Nat) (hki : k ∈ n.insts.zipIdx)
     (hs : KidShape n k) (st st' : St) (hstd : k.1.typ = "EBLIF.names" → Std st (k.1.pins.length - 1))
+    (hsl : StdL st) (hsep : k.1.typ ≠ "EBLIF.latch" → k.1.model ≠ "generic-latch")
     (h : elabStmt st t (stmtOfFull o n k) = Except.ok st') :
-    (∀ q ∈ k.1.pins, (n.wireOf (Pin.inst k.2 q.1 q.2)).isSome = true →
-      ∃ p, findIn (portsOf st' k.1.model) q.1 = some p ∧ q.2 < p.width) ∧
+    (∀ q ∈ k.1.pins, ∃ p, findIn (portsOf st' k.1.model) q.1 = some p ∧ q.2 < p.width) ∧
     (∀ m W, (m = k.1.model → ∀ q ∈ k.1.pins, q.2 < W q.1) → UBd st m W → UBd st' m W) ∧
-    PMono st st' := by
+    PMono st st' ∧ StdL st' := by
   have hi := isInst_full o n k
   have hmod := stmtModel_full o n k hs
   have hother : ∀ m W, m ≠ k.1.model → UBd st m W → UBd st' m W := by
     intro m W hne u
     exact ubd_of_ports (portsOf_other_stmt hi (by rw [hmod]; exact hne) h) u
-  have hact : ∀ q : String × Nat, (n.wireOf (Pin.inst k.2 q.1 q.2)).isSome = true →
-      ∃ cn ci, splitIdx (netText n (Pin.inst k.2 q.1 q.2)) = Except.ok (cn, ci) ∧ cn ≠ "unconn" := by
-    intro q hq
-    cases hwo : n.wireOf (Pin.inst k.2 q.1 q.2) with
-    | none => rw [hwo] at hq; cases hq
-    | some r =>
-      obtain ⟨c, wi, len⟩ := r
-      refine ⟨c.2, wi, splitIdx_netText hwo (fun c hcm => ⟨(hc c hcm).1, (hc c hcm).2.2⟩), ?_⟩
-      obtain ⟨ws, _, hm, _⟩ := wireOf_spec hwo
-      exact (hc (c, ws) hm).2.1
-  refine ⟨?_, ?_, pm_elabStmt h⟩
+  have hstdl : StdL st' := by
+    by_cases hl : k.1.typ = "EBLIF.latch"
+    · have hn : ¬ k.1.typ = "EBLIF.names" := by rw [hl]; decide
+      have e : stmtOfFull o n k = Stmt.latch (latchToks n k.2 k.1) (infoStmts o k.1) := by
+        unfold stmtOfFull; simp [hn, hl]
+      have hs' := hs
+      unfold KidShape at hs'
+      simp only [hn, hl, if_false, if_true] at hs'
+      obtain ⟨_, _, h5, h4, _⟩ := hs'
+      have hz : (latchOrder.zip (latchToks n k.2 k.1)).map (·.1) = latchOrder.take k.1.pins.length := by
+        rw [latchToks_eq, h4, List.map_map, zip_take_map, List.map_map]
+        exact (List.map_congr_left (fun x _ => rfl)).trans (List.map_id _)
+      rw [e] at h
+      obtain ⟨hd', a, ha, _, hp'⟩ := stdL_latch k.1.pins.length h5 hz hsl h
+      exact Or.inr ⟨hd', a, ha, hp'⟩
+    · exact stdL_other hi (by rw [hmod]; exact fun e => hsep hl e.symm) hsl h
+  refine ⟨?_, ?_, pm_elabStmt h, hstdl⟩
   · -- lower bound
-    intro q hq hcon
-    obtain ⟨cn, ci, hsp, hun⟩ := hact q hcon
+    intro q hq
     by_cases hn : k.1.typ = "EBLIF.names"
     · have hK := namesNets_len n k hn hs
       have e : stmtOfFull o n k = Stmt.names (namesNets n k.2 k.1) ((coverRows k.1).map coverText) (infoStmts o k.1) := by
@@ -62,26 +67,17 @@ theorem kid_ports (o : Opts) (n : BNet) (t : String) (hw : WellNamed n)
         have hs' := hs
         unfold KidShape at hs'
         simp only [hn, hl, if_false, if_true] at hs'
-        obtain ⟨hm, _, _, h4, h5⟩ := hs'
+        obtain ⟨hm, _, h5', h4, h5⟩ := hs'
         have := h5 q hq
         rw [h4] at this
         obtain ⟨pt, hpt, rfl⟩ := List.mem_map.mp this
-        unfold elabStmt at h
-        simp only [] at h
-        split at h
-        · cases h
-        · obtain ⟨s1, h1, h⟩ := bind_ok h
-          obtain ⟨s2, h2, h⟩ := bind_ok h
-          have hzip : latchOrder.zip (latchToks n k.2 k.1) =
-              (latchOrder.take k.1.pins.length).map (fun x => (x, netText n (Pin.inst k.2 x 0))) := by
-            rw [latchToks_eq, h4, List.map_map, zip_take_map]; rfl
-          have hfa : (pt, netText n (Pin.inst k.2 pt 0)) ∈ latchOrder.zip (latchToks n k.2 k.1) := by
-            rw [hzip]; exact List.mem_map.mpr ⟨pt, hpt, rfl⟩
-          obtain ⟨p, hp, hlt⟩ := connectAll_port _ h2 _ hfa cn ci pt 0 hsp
-            (latchOrder_split pt (List.mem_of_mem_take hpt)) hun
-          obtain ⟨p1, hp1, l1⟩ := pm_applyInfo _ h "generic-latch" pt p hp
-          rw [hm]
-          exact ⟨p1, hp1, by simp only at hlt ⊢; omega⟩
+        have hz : (latchOrder.zip (latchToks n k.2 k.1)).map (·.1) = latchOrder.take k.1.pins.length := by
+          rw [latchToks_eq, h4, List.map_map, zip_take_map, List.map_map]
+          exact (List.map_congr_left (fun x _ => rfl)).trans (List.map_id _)
+        obtain ⟨_, a, ha, hma, hp'⟩ := stdL_latch k.1.pins.length h5' hz hsl h
+        obtain ⟨p, hp, hw⟩ := latch_width_one k.1.pins.length (by simp; omega) a (by simp; omega) hma pt hpt
+        rw [hm, hp']
+        exact ⟨p, hp, by simp only; omega⟩
       · have e : stmtOfFull o n k = Stmt.subckt (k.1.typ = "EBLIF.gate") k.1.model (connsOf n k.2 k.1) (infoStmts o k.1) := by
           unfold stmtOfFull; simp [hn, hl]
         rw [e] at h
@@ -97,8 +93,7 @@ theorem kid_ports (o : Opts) (n : BNet) (t : String) (hw : WellNamed n)
         have hform : splitIdx (formalText p0 q.2) = Except.ok (q.1, q.2) := by
           rw [← hpq]
           exact splitIdx_formalText p0 q.2 hpl (okWord_nonempty (hpn p0 hp0)) (hb q hq hpq.symm)
-        have hfa : (formalText p0 q.2, netText n (Pin.inst k.2 q.1 q.2)) ∈ infoMapOf (connsOf n k.2 k.1) := by
-          rw [infoMapOf_nodup _ hnd]
+        have hfa : (formalText p0 q.2, netText n (Pin.inst k.2 q.1 q.2)) ∈ connsOf n k.2 k.1 := by
           unfold connsOf
           refine List.mem_flatMap.mpr ⟨p0, hp0, List.mem_map.mpr ⟨q, ?_, rfl⟩⟩
           simp only [List.mem_filter, List.mem_reverse, decide_eq_true_eq]
@@ -107,9 +102,15 @@ theorem kid_ports (o : Opts) (n : BNet) (t : String) (hw : WellNamed n)
         simp only [] at h
         obtain ⟨sa, ha, h⟩ := bind_ok h
         obtain ⟨sb, hb', h⟩ := bind_ok h
-        obtain ⟨p, hp, hlt⟩ := connectAll_port _ hb' _ hfa cn ci q.1 q.2 hsp hform hun
-        obtain ⟨p1, hp1, l1⟩ := pm_applyInfo _ h k.1.model q.1 p hp
-        exact ⟨p1, hp1, by omega⟩
+        obtain ⟨p, hp, hlt⟩ := declFormals_port _ (defEx_ensureDef _ _) ha _ hfa q.1 q.2 hform
+        have hp0' : ∃ p0', findIn (portsOf (assignDefault (newInst sa t k.1.model
+            (if (decide (k.1.typ = "EBLIF.gate")) = true then "EBLIF.gate" else "EBLIF.subckt")).1
+            (newInst sa t k.1.model (if (decide (k.1.typ = "EBLIF.gate")) = true then "EBLIF.gate" else "EBLIF.subckt")).2 t k.1.model)
+            k.1.model) q.1 = some p0' ∧ p.width ≤ p0'.width := ⟨p, hp, Nat.le_refl _⟩
+        obtain ⟨p0', hp0'', l0⟩ := hp0'
+        obtain ⟨p1, hp1, l1⟩ := pm_connectAll _ hb' k.1.model q.1 p0' hp0''
+        obtain ⟨p2, hp2, l2⟩ := pm_applyInfo _ h k.1.model q.1 p1 hp1
+        exact ⟨p2, hp2, by omega⟩
   · -- upper bound
     intro m W hreq u
     by_cases hm : m = k.1.model
@@ -183,23 +184,23 @@ theorem kid_ports (o : Opts) (n : BNet) (t : String) (hw : WellNamed n)
 theorem body_ports (o : Opts) (n : BNet) (t : String) (hw : WellNamed n)
     (hc : ∀ c ∈ n.cables, plainName c.1.2 ∧ c.1.2 ≠ "unconn" ∧ c.1.2.toList ≠ []) (hk : KidsOKF n t)
     (hkids : ∀ i ∈ n.insts, i.parent = t ∧
-      (i.typ = "EBLIF.subckt" ∨ i.typ = "EBLIF.gate" ∨ i.typ = "EBLIF.names" ∨ i.typ = "EBLIF.latch")) :
+      (i.typ = "EBLIF.subckt" ∨ i.typ = "EBLIF.gate" ∨ i.typ = "EBLIF.names" ∨ i.typ = "EBLIF.latch"))
+    (hlsep : ∀ k ∈ n.insts.zipIdx, k.1.typ ≠ "EBLIF.latch" → k.1.model ≠ "generic-latch") :
     ∀ (l pre : List (Inst × Nat)), (∀ k ∈ l, k ∈ n.insts.zipIdx) →
       (o.writeCname = true → ((pre ++ l).map (·.1.name)).Nodup) →
     ∀ st : St, st.insts.length = pre.length → (o.writeCname = true → namesOf st = pre.map (·.1.name)) →
-      DefEx st t → StdKids n st →
+      DefEx st t → StdKids n st → StdL st →
       ∃ st', elabStmts st t (l.map (stmtOfFull o n)) = Except.ok st' ∧
-        (∀ k ∈ l, ∀ q ∈ k.1.pins, (n.wireOf (Pin.inst k.2 q.1 q.2)).isSome = true →
-          ∃ p, findIn (portsOf st' k.1.model) q.1 = some p ∧ q.2 < p.width) ∧
+        (∀ k ∈ l, ∀ q ∈ k.1.pins, ∃ p, findIn (portsOf st' k.1.model) q.1 = some p ∧ q.2 < p.width) ∧
         (∀ m W, (∀ k ∈ l, k.1.model = m → ∀ q ∈ k.1.pins, q.2 < W q.1) → UBd st m W → UBd st' m W) := by
   have hcab : ∀ c ∈ n.cables, plainName c.1.2 ∧ c.1.2.toList ≠ [] := fun c hcm => ⟨(hc c hcm).1, (hc c hcm).2.2⟩
   intro l
   induction l with
   | nil =>
-    intro pre _ _ st _ _ _ _
+    intro pre _ _ st _ _ _ _ _
     exact ⟨st, rfl, (fun k hk' => by cases hk'), (fun _ _ _ u => u)⟩
   | cons a r ih =>
-    intro pre hmem hnd st hlen hnames hd hstd
+    intro pre hmem hnd st hlen hnames hd hstd hsl
     have hkm : a ∈ n.insts.zipIdx := hmem a (by simp)
     have hai : a.1 ∈ n.insts := mem_zipIdx_fst hkm
     obtain ⟨hshape, _, _, hne, _⟩ := hk _ hkm
@@ -214,23 +215,23 @@ theorem body_ports (o : Opts) (n : BNet) (t : String) (hw : WellNamed n)
     obtain ⟨s1, h1, l1, n1, _, _, _, _, _, _, f1, sd1, sn1⟩ :=
       kid_step o n t hw hcab a hkm hshape (hkids a.1 hai).1 hne (hkids a.1 hai).2 pre.length st hlen hx
         (fun hn => hstd a.1 hai hn) hd
-    obtain ⟨lb1, ub1, pm1⟩ := kid_ports o n t hw hc a hkm hshape st s1 (fun hn => hstd a.1 hai hn) h1
+    obtain ⟨lb1, ub1, pm1, sl1⟩ := kid_ports o n t hw hc a hkm hshape st s1 (fun hn => hstd a.1 hai hn) hsl (hlsep a hkm) h1
     have hstd1 : StdKids n s1 := stdKids_step n t hk a hkm st s1 sd1 sn1 hstd
     obtain ⟨s2, h2, lb2, ub2⟩ := ih (pre ++ [a])
       (fun k hkm' => hmem k (by simp [hkm']))
       (by intro hwc; simpa [List.append_assoc] using hnd hwc) s1 (by simpa using l1) (by
         intro hwc
-        rw [n1 hwc, hnames hwc]; simp) f1.2 hstd1
+        rw [n1 hwc, hnames hwc]; simp) f1.2 hstd1 sl1
     refine ⟨s2, ?_, ?_, ?_⟩
     · simp only [List.map_cons]
       unfold elabStmts
       rw [h1]; exact h2
-    · intro k hk' q hq hcon
+    · intro k hk' q hq
       rcases List.mem_cons.mp hk' with rfl | hk''
-      · obtain ⟨p, hp, hlt⟩ := lb1 q hq hcon
+      · obtain ⟨p, hp, hlt⟩ := lb1 q hq
         obtain ⟨p', hp', hle⟩ := pm_elabStmts _ h2 _ _ p hp
         exact ⟨p', hp', by omega⟩
-      · exact lb2 k hk'' q hq hcon
+      · exact lb2 k hk'' q hq
     · intro m W hreq u
       exact ub2 m W (fun k hk' => hreq k (by simp [hk'])) (ub1 m W (fun hm => hreq a (by simp) hm.symm) u)
 
